@@ -7,12 +7,15 @@ import EpsModel.Show
 import EpsModel.Mask
 import EpsModel.Schema
 import EpsModel.Cursor
+import EpsModel.Iter
 import EpsModel.XXH3
 open Eps
 
 structure St where
   types : Std.HashMap Nat Ty := {}
   names : Std.HashMap Nat B := {}
+  stypes : Std.HashMap Nat Ty := {}
+  snames : Std.HashMap Nat (B × B) := {}
 
 def H : B → Nat := XXH3.xxh3
 
@@ -103,12 +106,61 @@ def cursorLine (al : Nat) (ops : List Op) : String :=
   "cursor " ++ ",".intercalate (cutAtPanic (ao.map showOut)) ++ " | " ++ hexOf a.asBytes ++ " " ++ toString a.len ++ " " ++ toString a.pos ++ " ptrok || " ++
     ",".intercalate (so.map showOut) ++ " | " ++ hexOf s.buf ++ " " ++ toString s.buf.length ++ " " ++ toString s.pos ++ " ptrok"
 
+def wrapTy (a : Ty) : Ty :=
+  .adt { name := ascii "Wrap", isEnum := false, zero := false, deepAttr := false, reprs := [], alignAttr := 1, consts := [] }
+    (.cons (ascii "Wrap") (.cons (ascii "a") true a (.cons (ascii "tail") false (.prim (.int .u16)) .nil)) .nil)
+
+def serHex (t : Ty) (name : B) (v : Val) : String :=
+  let hdr := t.header H name
+  let s := t.ser H name v
+  maskedHex s (trues hdr.length ++ t.encMask v hdr.length)
+
+def doSer3 (t : Ty) (vn wn : B) (v : Val) : String :=
+  let wv := Val.record [v, .bits 0xBEEF]
+  let z := t.isZC
+  "ser3 V:" ++ serHex (.vec t) vn v ++ " S:" ++ serHex (.sliceRef t) vn v ++
+  " I:" ++ (if z then serHex (.serIter t) vn v else "-") ++
+  " WV:" ++ serHex (wrapTy (.vec t)) wn wv ++ " WS:" ++ serHex (wrapTy (.sliceRef t)) wn wv ++
+  " WI:" ++ (if z then serHex (wrapTy (.serIter t)) wn wv else "-") ++ " intact=true"
+
+def doIter (t : Ty) (vn : B) (v : Val) (a : Nat) : String :=
+  match v with
+  | .seq items =>
+    if !t.isZC then "iter -" else
+    let hdr := (Ty.vec t).header H vn
+    let (body, r) := encIter t items a hdr.length
+    let all := hdr ++ body
+    match r with
+    | .ok () => "iter ok " ++ toString all.length ++ " " ++ hexOf all
+    | .error (.lengthMismatch act exp) => "iter mismatch " ++ toString act ++ " " ++ toString exp ++ " " ++ hexOf all
+  | _ => "badval"
+
 def step (st : St) (line : String) : St × Option String :=
   match line.trimAscii.toString.splitOn " " with
   | ["name", i, h] =>
       match i.toNat? with
       | some i => ({ st with names := st.names.insert i (unhex h.toList) }, none)
       | none => (st, some "bad-op")
+  | ["sname", i, a, b] =>
+      match i.toNat? with
+      | some i => ({ st with snames := st.snames.insert i (unhex a.toList, unhex b.toList) }, none)
+      | none => (st, some "bad-op")
+  | ["stype", i, ty] =>
+      match i.toNat?, parseTy ty with
+      | some i, some t => ({ st with stypes := st.stypes.insert i t }, some ("stype " ++ toString i))
+      | _, _ => (st, some "bad-type")
+  | ["ser3", i, val] =>
+      match i.toNat?.bind (st.stypes[·]?), parseVal val with
+      | some t, some v =>
+        let (vn, wn) := st.snames.getD i.toNat! ([], [])
+        if !(Ty.vec t).wt v then (st, some "illtyped") else (st, some (doSer3 t vn wn v))
+      | _, _ => (st, some "badval")
+  | ["iter", i, val, a] =>
+      match i.toNat?.bind (st.stypes[·]?), parseVal val, a.toNat? with
+      | some t, some v, some a =>
+        let (vn, _) := st.snames.getD i.toNat! ([], [])
+        (st, some (doIter t vn v a))
+      | _, _, _ => (st, some "badval")
   | ["type", i, ty] =>
       match i.toNat?, parseTy ty with
       | some i, some t => ({ st with types := st.types.insert i t }, some ("type " ++ toString i))
